@@ -640,7 +640,7 @@ def ob_h_shared(ob):
 
 
 # ---- shared obligation: the converged density has the trace 2 nocc of its own molecule only if each density step is fed that molecule's occupation number ----
-@obligation(PID, "i", title='[shared with C04.g] SCF drivers under partial convergence (fixed mixing, adaptive mixing, adaptive + Pulay): at every density step the Fock matrices of the still-active molecules arrive together with the atom counts and occupation numbers of the same molecules, and the convergence flags returned are those of the schedule — for every order in which the molecules of a batch converge')
+@obligation(PID, "i", title='[shared with C04.g] SCF drivers under partial convergence (fixed mixing, adaptive mixing, adaptive + Pulay, Krylov subspace KSA): the driver completes, at every density step the Fock matrices of the still-active molecules arrive together with the atom counts and occupation numbers of the same molecules, and the convergence flags returned are those of the schedule — for every order in which the molecules of a batch converge')
 def ob_i_shared(ob):
     """the converged density has the trace 2 nocc of its own molecule only if each density step is fed that molecule's occupation number"""
     from . import C04 as _m  # imported lazily: the harness modules share obligations in both directions
